@@ -168,6 +168,8 @@ def wrapper_shape(ctx: Ctx):
                 else:
                     if is_forward(v, plain_new) and unparse(v.args[0].value) == va:
                         final_ok = True
+                    elif isinstance(v, ast.Call) and unparse(v.func) != new_param:
+                        unknown.append(st)  # the callee is chosen in a way the rule does not follow (a helper, a local): not an accusation
                     else:
                         problems.append((st, f'the wrapper returns {unparse(v) if v is not None else None} instead of {new_param}(*{va}, **{kw})'))
                 continue
@@ -193,7 +195,19 @@ def _is_method_flag(decorator: FuncInfo, name: str, old_param: str) -> bool:
     return False
 
 
+#: obligations whose failure contradicts the property (rule, construct pattern, why); every other failure is 'not recognised'
+POSITIVE: list[tuple[str, str, str]] = [
+    ('C20.D1', r'.', 'the argument of @deprecated does not resolve to a function reachable from the alias'),
+    ('C20.D2', r'.', 'the replacement named by the decorator is not the function whose name the old name spells in the new naming scheme'),
+    ('C20.D3', r'.', 'an alias of a static replacement is not static'),
+    ('C20.D4', r'.', 'resolved dispatch: on a subclass the old name runs another function than the new name'),
+    ('C20.D6', r'.', 'a target of an obsolete_params table is not a parameter of the decorated function'),
+    ('C20.D7', r'.', 'an obsolete property reads or writes another property than the one its warning names'),
+]
+
+
 def run(ctx: Ctx) -> None:
+    ctx.positive_table = list(POSITIVE)
     prog = ctx.prog
     ctx.rule('C20.D1', 'the argument of every @deprecated(...) resolves to a function of the same class body, module or import')
     ctx.rule(
